@@ -28,13 +28,17 @@ var (
 // isElementWithoutContent determines if node is empty
 // or only filled with <br> and <hr>.
 func isElementWithoutContent(node *html.Node) bool {
-	brs := dom.GetElementsByTagName(node, "br")
-	hrs := dom.GetElementsByTagName(node, "hr")
-	childs := dom.Children(node)
+	if node.Type != html.ElementNode || strings.TrimSpace(dom.TextContent(node)) != "" {
+		return false
+	}
 
-	return node.Type == html.ElementNode &&
-		strings.TrimSpace(dom.TextContent(node)) == "" &&
-		(len(childs) == 0 || len(childs) == len(brs)+len(hrs))
+	for _, child := range dom.Children(node) {
+		if tagName := dom.TagName(child); tagName != "br" && tagName != "hr" {
+			return false
+		}
+	}
+
+	return true
 }
 
 func isByline(node *html.Node, matchString string) bool {
